@@ -32,24 +32,40 @@ THEOREMS = ['C15_tokens_of_appended_options', 'C15_keywords_prefix',
             'C15_like_equals_expanded', 'C15_like_mat_void',
             'C15_expansion_card', 'C15_like_expansion_card',
             'C15_expansion_is_override', 'C15_expansion_deck',
+            'C15_expansion_groups_complete', 'C15_explicit_card_has_density',
             'C15_importance_dictionary_linked',
             'C15_like_importance_zero_iff_linked']
 TRUSTED = [
-    'hand-written model coq/C15/Model.v (modelled, tied by execution only)',
+    'hand-written models coq/C15/Model.v and coq/C15/Canon.v (tied by '
+    'execution: tie:deck, tie:split, tie:canon; sweep:canon-impl hands the '
+    'cards constructed by Canon.v to the implementation)',
     'environment of the model, filled per deck from the repository\'s own '
-    'functions and not modelled here: Python float()/int(float())/'
-    'round(float()) of a token, self.transforms (TR cards through '
-    'get_mcnp_transforms), normalize_transform, normalize_float, get_ast '
-    '(printed with repr), parse_importance_cards(), the --lattice option',
-    'cos(radians(x)) at binary64 is Base/Scalar.f_cos, compared at 1e-9',
+    'functions and not modelled here: datacard.to_float(tok), '
+    'int(float(tok)), int(to_float(tok)) of a token (which reader is used '
+    'where IS in the model), self.transforms (TR cards through '
+    'get_mcnp_transforms), normalize_transform, normalize_float (C14 links '
+    'its model of normalize_float into this environment: '
+    'C14_parse_metamorphic_c09_linked), get_ast printed with repr (C11), '
+    'parse_importance_cards() (C12), the --lattice option',
+    'binary64 execution: round() of a float is C12.Exec.f_roundZ, '
+    'cos(radians(x)) is Base/Scalar.f_cos compared at 1e-9',
+    'the importance dictionary is no longer only tied: it is proved equal to '
+    'C12\'s (C15_importance_dictionary_linked)',
     'harness: generators, the expansion of LIKE cards on the abstract deck, '
     'impl.T4File reader, mcnpref/t4eval/geomcheck, PEG shim replacing TatSu',
 ]
 ASSUMPTIONS = [
     'cell numbers are distinct; LIKE chains are acyclic (a cyclic chain makes '
-    'the implementation loop for ever; the model answers EFuel)',
-    'FILL arrays use plain integers and the nR/R repetition only (I, M, J, '
-    'LOG shorthands are outside the model: EUnsupported); array sizes > 0',
+    'the implementation loop for ever; the model answers EFuel; '
+    'C15_chain_depth: on acyclic tables the fuel is always enough)',
+    'FILL arrays: numbers, nR, nI, xM, nJ are modelled; LOG / ILOG are not '
+    '(EUnsupported: they need a float power, which neither Base.Scalar nor '
+    'the environment record — frozen, C14 builds it positionally — provides); '
+    'array sizes > 0',
+    'the card-construction theorems hold where Canon.canon_card is defined: '
+    'undefined for a stray number after a keyword that is read, for a '
+    'material without a density (C15_explicit_card_has_density: no such '
+    'card exists) and for a particle that does not read back',
     'ASCII text; white space = blank, TAB, LF, VT, FF, CR',
     'the model\'s int() is narrower than Python\'s (sign + ASCII digits)',
 ]
@@ -673,8 +689,39 @@ CORPUS = [
 ]
 
 
+# whole decks (LIKE deck, explicit deck): the shapes the seeded changes need
+_FTAIL = ('\n1 so 1\n2 s 0 5 0 1\n9 so 30\n\nm1 1001 1\nm2 8016 1\nm3 26056 1\n')
+CORPUS_FULL = [
+    ('importances on an IMP data card, a LIKE card followed by plain cells '
+     '(seeded C15_A: rank of the cells after a LIKE card)',
+     'corpus\n1 1 -1.0 -1\n2 like 1 but trcl=(5 0 0)\n3 2 -2.0 -2\n'
+     '4 0 #1 #2 #3 -9\n5 0 9\n' + _FTAIL + 'imp:n 1 0 2 1 0\n',
+     'corpus\n1 1 -1.0 -1\n2 1 -1.0 -1 trcl=(5 0 0)\n3 2 -2.0 -2\n'
+     '4 0 #1 #2 #3 -9\n5 0 9\n' + _FTAIL + 'imp:n 1 0 2 1 0\n'),
+    ('BUT RHO with a spelling that normalize_float changes (seeded C15_D)',
+     'corpus\n1 1 -1.0 -1 imp:n=1\n2 like 1 but rho=-2.50 trcl=(5 0 0)\n'
+     '3 like 2 but mat=3 RHO=7.80-1 trcl=(0 5 0)\n'
+     '4 0 #1 #2 #3 -9 imp:n=1\n5 0 9 imp:n=0\n' + _FTAIL,
+     'corpus\n1 1 -1.0 -1 imp:n=1\n2 1 -2.50 -1 imp:n=1 trcl=(5 0 0)\n'
+     '3 3 7.80-1 -1 imp:n=1 trcl=(0 5 0)\n'
+     '4 0 #1 #2 #3 -9 imp:n=1\n5 0 9 imp:n=0\n' + _FTAIL),
+    ('the same keyword overridden at two levels of a chain (seeded C15_C)',
+     'corpus\n1 1 -1.0 -1 imp:n=1 u=0\n2 like 1 but mat=2 rho=-2.0 trcl=(5 0 0) imp:n=2\n'
+     '3 like 2 but mat=3 rho=-3.0 trcl=(0 5 0) imp:n=4\n'
+     '4 0 #1 #2 #3 -9 imp:n=1\n5 0 9 imp:n=0\n' + _FTAIL,
+     'corpus\n1 1 -1.0 -1 imp:n=1 u=0\n2 2 -2.0 -1 imp:n=2 u=0 trcl=(5 0 0)\n'
+     '3 3 -3.0 -1 imp:n=4 u=0 trcl=(0 5 0)\n'
+     '4 0 #1 #2 #3 -9 imp:n=1\n5 0 9 imp:n=0\n' + _FTAIL),
+]
+
+
 def corpus_failures():
     out = []
+    for name, a_text, b_text in CORPUS_FULL:
+        a = impl.convert(a_text, keep_stdout=False)
+        b = impl.convert(b_text, keep_stdout=False)
+        if not (a.ok and b.ok) or strip_header(a.text) != strip_header(b.text):
+            out.append((name, a_text, b_text, f'{a} / {b}'))
     for name, like_cards, explicit_cards in CORPUS:
         for order in (0, 1):
             a_cards = like_cards + _SHARED if order else _SHARED + like_cards
@@ -750,7 +797,7 @@ def _run(res, tier, seed, proofs_ok):
                       f'its explicit expansion ({detail})',
                       {'input': {'deck': a_text, 'expanded': b_text},
                        'oracle': 'corpus'}, found_input=True)
-    res.count('corpus-decks', 2 * len(CORPUS))
+    res.count('corpus-decks', 2 * len(CORPUS) + len(CORPUS_FULL))
 
     # ---- 2. decks: sweep + tie cases ----
     cases, meta = [], []
